@@ -85,8 +85,30 @@ func wildEnum(prop string) func(string) int {
 	}
 }
 
+// c15ClockPlan: a deprecated ::/0 stanza expanded while the clock moves on
+// every reading (the C16 "clock" scenario): whatever it expands to in one RA
+// carries one lifetime.
+func c15ClockPlan(rng *verifsim.RNG) *Plan {
+	p := oneAdvertiser(rng)
+	s := &p.Nodes[0].Config.Interfaces[0]
+	v := time.Duration(rng.Range(5, 4000)) * time.Second
+	s.Routes = []RouteSpec{{Prefix: sp("::/0"), Deprecated: true, Preference: triPref(rng), Lifetime: sp(v.String())}}
+	p.Loop = []RouteW{{Prefix: "2001:db8:100::/48"}, {Prefix: "2001:db8:200::/56"}, {Prefix: "fd00:aa::/32"}}[:rng.Range(2, 3)]
+	p.Scenario, p.Class = "clock", "clock-per-call"
+	p.Opt = map[string]int64{"per_call": 1}
+	t := int64(rng.Dur(0, v))
+	for i, n := 0, rng.Range(6, 30); i < n; i++ {
+		p.Clock = append(p.Clock, t)
+		t += int64(rng.Dur(200*time.Millisecond, 900*time.Millisecond))
+	}
+	return p
+}
+
 func wildGen(prop string) func(rng *verifsim.RNG, idx int, tier string) *Plan {
 	return func(rng *verifsim.RNG, idx int, tier string) *Plan {
+		if prop == "C15" && idx >= wildEnum(prop)(tier) && rng.Bool(0.05) {
+			return c15ClockPlan(rng)
+		}
 		p := oneAdvertiser(rng)
 		n := &p.Nodes[0]
 		s := &n.Config.Interfaces[0]
@@ -357,6 +379,34 @@ func wildOracle(prop string) func(info *runInfo, res *verifsim.Result) {
 	return func(info *runInfo, res *verifsim.Result) {
 		if info.rejected[0] != "" {
 			res.Skipped = "config_rejected"
+			return
+		}
+		if info.plan.Scenario == "clock" {
+			// (C15 only) builds driven directly, the clock moving on every reading
+			spec := &info.plan.Nodes[0].Config.Interfaces[0]
+			for i := range info.ev {
+				e := &info.ev[i]
+				if e.K != "clock.build" || e.Err != "" {
+					continue
+				}
+				t := info.epochs[0] + e.V
+				in := modelIn{spec: spec, fwd: true, mac: info.plan.Nodes[0].Ifaces[0].MAC, nLoop: 1, epoch: info.epochs[0], t1: t, t2: t + int64(e.Ref),
+					routes: []string{routeListString(info.plan.Loop)}}
+				m := expectRA(in)
+				ex, x := optsOfKind(m, wireOpts(parseRA(e.B)), kind)
+				if d := diffKind(ex, x); d != "" {
+					res.Violate(rule, "set", "clock reading epoch%+v: route options differ: %s", time.Duration(e.V), d)
+					continue
+				}
+				for j := 1; j < len(x); j++ {
+					if ex[j].stanza == ex[j-1].stanza && fmt.Sprint(x[j].v) != fmt.Sprint(x[j-1].v) {
+						res.Violate(rule, "lifetime-differs", "clock reading epoch%+v: %s and %s were expanded from one ::/0 stanza but carry different lifetimes", time.Duration(e.V), x[j-1], x[j])
+						break
+					}
+				}
+				res.Nontrivial = true
+				res.Probe("wildcard_expanded_under_a_moving_clock")
+			}
 			return
 		}
 		h := analyse(info.ev)
